@@ -106,7 +106,12 @@ impl World {
             .get("rights")
             .map(|s| s.split(',').map(|x| x.to_string()).collect())
             .unwrap_or_else(|| vec!["a".to_string(); npeers]);
-        if rights.len() != npeers || rights.iter().any(|r| r != "a" && r != "s") || rights[0] != "a" {
+        if rights.len() != npeers || rights.iter().any(|r| r != "a" && r != "s" && r != "l") || rights[0] != "a" {
+            return Err("bad-op".into());
+        }
+        // `l`: own-rows right from the start, all-rows right from date `grant` on (a dated right of the room definition)
+        let grant: Option<i64> = kv.get("grant").and_then(|v| v.parse().ok());
+        if rights.iter().any(|r| r == "l") && grant.is_none() {
             return Err("bad-op".into());
         }
         if let Some(c) = self.case.take() {
@@ -120,11 +125,18 @@ impl World {
         for _ in 0..2 {
             let mut all = String::new();
             let mut own = String::new();
+            let mut late = String::new();
             let mut kvs: Vec<(String, String)> = vec![("u0".to_string(), self.peers[0].key64.clone())];
             for (i, r) in rights.iter().enumerate() {
                 kvs.push((format!("k{}", i), self.peers[i].key64.clone()));
                 let s = format!("{{verif_key:$k{}}}", i);
-                let tgt = if r == "a" { &mut all } else { &mut own };
+                let tgt = if r == "a" {
+                    &mut all
+                } else if r == "s" {
+                    &mut own
+                } else {
+                    &mut late
+                };
                 if !tgt.is_empty() {
                     tgt.push(',');
                 }
@@ -140,9 +152,10 @@ impl World {
                 )
             };
             let text = format!(
-                "mutate {{ sys.Room {{ admin: [{{verif_key:$u0}}] authorisations:[ {} {} ] }} }}",
+                "mutate {{ sys.Room {{ admin: [{{verif_key:$u0}}] authorisations:[ {} {} {} ] }} }}",
                 group("all", &all, true),
-                if own.is_empty() { String::new() } else { format!(", {}", group("own", &own, false)) }
+                if own.is_empty() { String::new() } else { format!(", {}", group("own", &own, false)) },
+                if late.is_empty() { String::new() } else { format!(", {}", group("late", &late, false)) }
             );
             let kvr: Vec<(&str, String)> = kvs.iter().map(|(k, v)| (k.as_str(), v.clone())).collect();
             let q = self.peers[0]
@@ -150,7 +163,26 @@ impl World {
                 .mutate_raw(&text, Some(params(&kvr)))
                 .await
                 .map_err(|e| format!("room creation: {}", e))?;
-            rooms.push(q.mutate_entities[0].node_to_mutate.id);
+            let room_id = q.mutate_entities[0].node_to_mutate.id;
+            rooms.push(room_id);
+            if !late.is_empty() {
+                // the last group of the mutation is "late": it gets the all-rows right at the date `grant`
+                let gid = q.mutate_entities[0]
+                    .sub_nodes
+                    .get("authorisations")
+                    .and_then(|v| v.last())
+                    .map(|g| g.node_to_mutate.id)
+                    .ok_or("room creation: no group id")?;
+                self.peers[0].write_barrier().await;
+                set_clock(grant.unwrap());
+                let text = "mutate { sys.Room { id:$r authorisations:[{ id:$g rights:[{entity:\"Person\" mutate_self:true mutate_all:true},{entity:\"Pet\" mutate_self:true mutate_all:true}] }] } }";
+                let r = self.peers[0]
+                    .svc
+                    .mutate_raw(text, Some(params(&[("r", discret::verif_hooks::security::uid_encode(&room_id)), ("g", discret::verif_hooks::security::uid_encode(&gid))])))
+                    .await;
+                set_clock(0);
+                r.map_err(|e| format!("room grant: {}", e))?;
+            }
         }
         self.peers[0].write_barrier().await;
         for i in 1..npeers {
